@@ -211,6 +211,117 @@ fn wire_body(c: &WireCase, rec: &mut crate::core::Rec) -> crate::core::CaseResul
 }
 
 // ---------------------------------------------------------------------------------------------
+// many names in one message: the encoder keeps per-message budgets (compression candidates stored,
+// names written with compression); whatever it does once a budget is used up, every name must
+// still read back with its own octets
+
+#[derive(Clone, Debug, Serialize, Deserialize)]
+struct ManyCase {
+    pad: u32,
+    /// (name, emitted with compression on)
+    names: Vec<(MName, bool)>,
+}
+
+fn many_case() -> impl Strategy<Value = ManyCase> {
+    let pad = prop_oneof![6 => 0u32..40, 1 => 16_000u32..16_400];
+    let n = prop_oneof![2 => 40usize..100, 5 => 100usize..180, 2 => 180usize..320];
+    (pad, names::related_fq_pool(14), n, any::<u64>(), 0u8..4).prop_map(|(pad, pool, n, bits, plain_every)| {
+        let mut x = bits | 1;
+        let mut names = Vec::with_capacity(n);
+        for i in 0..n {
+            // xorshift: a pure function of the generated `bits`
+            x ^= x << 13;
+            x ^= x >> 7;
+            x ^= x << 17;
+            let mut m = pool[(x >> 8) as usize % pool.len()].clone();
+            // a fresh leading label on most names (so that the name itself is new and only its suffix
+            // can be a pointer), letter case chosen per name
+            if x & 3 != 0 && m.wire_len() + 5 <= 255 && m.labels.len() < 126 {
+                let l = vec![b'a' + (i % 26) as u8, b'A' + ((x >> 20) % 26) as u8, b'0' + ((i / 26) % 10) as u8, b'q' - ((x >> 28) % 3) as u8 * 32];
+                m.labels.insert(0, l);
+            }
+            if (x >> 4) & 1 == 1 {
+                for l in m.labels.iter_mut() {
+                    for b in l.iter_mut() {
+                        if b.is_ascii_alphabetic() && (x >> (*b % 32)) & 1 == 1 {
+                            *b ^= 0x20;
+                        }
+                    }
+                }
+            }
+            let compressed = plain_every == 0 || i % (plain_every as usize + 6) != 5;
+            names.push((m, compressed));
+        }
+        ManyCase { pad, names }
+    })
+}
+
+fn many_body(c: &ManyCase, rec: &mut crate::core::Rec) -> crate::core::CaseResult {
+    let total = c.pad as usize + c.names.iter().map(|(n, _)| n.wire_len()).sum::<usize>();
+    if total > 65_535 {
+        rec.discard("over-64k");
+        return Ok(());
+    }
+    let mut buf: Vec<u8> = Vec::with_capacity(total + 16);
+    let mut enc = BinEncoder::new(&mut buf);
+    enc.emit_slice(&vec![0x40u8; c.pad as usize]).map_err(|e| crate::core::Fail::new("harness", format!("pad: {e}")))?;
+    let mut offsets = Vec::with_capacity(c.names.len());
+    for (i, (n, comp)) in c.names.iter().enumerate() {
+        let start = enc.len();
+        if let Err(e) = emit_name(&mut enc, &n.to_name(), *comp) {
+            vfail!("emit-failed", "emit of valid name #{i} {} failed: {e}", n.show());
+        }
+        offsets.push((start, enc.len()));
+    }
+    let end = enc.len();
+    drop(enc);
+    vensure!(buf.len() == end, "encoder-length-mismatch", "encoder.len()={end} but buffer has {} octets", buf.len());
+    let mut pointers = 0usize;
+    let mut compressed_on = 0usize;
+    for (i, ((m, comp), (start, stop))) in c.names.iter().zip(&offsets).enumerate() {
+        let used_pointer = stop - start < m.wire_len();
+        if used_pointer {
+            pointers += 1;
+        }
+        if *comp {
+            compressed_on += 1;
+        } else {
+            vensure!(!used_pointer, "uncompressed-name-used-pointer", "name #{i}: uncompressed emit wrote {} octets for a {}-octet name", stop - start, m.wire_len());
+        }
+        let mut dec = BinDecoder::new(&buf).clone(*start as u16);
+        let got = match Name::read(&mut dec) {
+            Ok(n) => n,
+            Err(e) => vfail!("wire-name-unreadable", "name #{i} {} emitted at offset {start} (compressed={comp}) does not decode: {e}", m.show()),
+        };
+        let got_m = MName::from_name(&got);
+        vensure!(
+            got_m.labels == m.labels,
+            "wire-roundtrip-changed-name",
+            "name #{i} of {} in one message ({compressed_on} written with compression on so far): emitted {} at offset {start}, decoded {}",
+            c.names.len(),
+            m.show(),
+            got_m.show()
+        );
+        vensure!(dec.index() == *stop, "wire-name-consumed-wrong-length", "name #{i}: decoder stopped at {} but the name ends at {stop}", dec.index());
+        check_limits(&got, "from-wire")?;
+    }
+    rec.class(match compressed_on {
+        0..=63 => "names-with-compression-on<=63",
+        64..=119 => "names-with-compression-on:64..119",
+        120..=160 => "names-with-compression-on:120..160",
+        _ => "names-with-compression-on>160",
+    });
+    rec.class(if pointers * 2 >= c.names.len() { "pointers:half-or-more" } else { "pointers:fewer" });
+    if compressed_on > 64 && pointers > 0 {
+        rec.nontrivial();
+        if rec.wants_note() {
+            rec.note(format!("{} names ({compressed_on} with compression on, {pointers} written with a pointer) after {} octets of padding; first: {}", c.names.len(), c.pad, c.names[0].0.show()));
+        }
+    }
+    Ok(())
+}
+
+// ---------------------------------------------------------------------------------------------
 // constructor programs
 
 #[derive(Clone, Debug, Serialize, Deserialize)]
@@ -595,6 +706,7 @@ pub fn check() -> Option<Check> {
     );
 
     let wire = prop("wire_roundtrip", 60_000, 2_000_000, |_| wire_case(), wire_body);
+    let wire_many = prop("wire_many_names", 6_000, 200_000, |_| many_case(), many_body);
 
     let text = prop(
         "text_roundtrip",
@@ -694,11 +806,11 @@ pub fn check() -> Option<Check> {
     Some(Check {
         id: "C04",
         level: "exploration",
-        rule: "names: 0..127 labels of arbitrary octets (class mix: LDH, _srv, *, octets around the letter ranges, 0x00/0x80-0xFF, 63-octet labels, names packed to 250..255 wire octets, 100+ one-octet labels); pairs/triples derived by case flips, bit-5 flips of non-letters, one-octet edits, label insert/drop/split/merge, shared suffixes. Non-trivial = distinct case AND (equal-mod-case but not identical, or exactly one differing octet, or mixed FQDN flags, or first difference in a non-rightmost label / ancestor relation, or a length-boundary name, or the wire form used a compression pointer or lies at/after offset 0x3FFF, or a constructor program reached a length limit)",
+        rule: "names: 0..127 labels of arbitrary octets (class mix: LDH, _srv, *, octets around the letter ranges, 0x00/0x80-0xFF, 63-octet labels, names packed to 250..255 wire octets, 100+ one-octet labels); pairs/triples derived by case flips, bit-5 flips of non-letters, one-octet edits, label insert/drop/split/merge, shared suffixes. Non-trivial = distinct case AND (equal-mod-case but not identical, or exactly one differing octet, or mixed FQDN flags, or first difference in a non-rightmost label / ancestor relation, or a length-boundary name, or the wire form used a compression pointer or lies at/after offset 0x3FFF, or a constructor program reached a length limit). wire_many_names: 40-320 names (a pool of related names, most with a fresh leading label, letter case chosen per name) written into ONE encoder, with compression on for all or all but every 6th-9th, optionally after 16 KB of padding; each must read back with its own octets at its own offset; non-trivial = more than 64 names with compression on and at least one pointer",
         assumptions: vec![
             "text clause asserted only for the alphabet the statement names (letters, digits, hyphen not leading, underscore, escaped dot, leading asterisk); it is asserted for both text forms: to_ascii()/from_ascii() must give back the identical name, Display/FromStr (which turns valid ACE labels into Unicode and may lower-case) must parse and give an equal name",
             "hash consistency checked with two fixed hashers",
         ],
-        subs: vec![eq_hash, order_pairs, order_sort, order_triples, wire, text, constructors, small],
+        subs: vec![eq_hash, order_pairs, order_sort, order_triples, wire, wire_many, text, constructors, small],
     })
 }
